@@ -7,11 +7,12 @@ EXPLANATION = ("In gix_odb::alternate::resolve: the site that gives a parsed alt
                "same binding as the directory whose info/alternates file was read in that iteration; pushing a directory onto the work list is cut "
                "off from entry once the `not yet seen` edge of seen.contains(canonical) is removed, the canonical path tested is the realpath of "
                "the joined path, and the cycle branch builds Error::Cycle. Siblings keep file order (no forward push onto a popped work list), Error::Cycle only behind a membership test on a collection that shrinks (the ancestor chain), "
-               "empty unquoted entries are skipped, the '#' test is applied to the raw line. Quoting fallbacks and git's depth limit are not decided.")
+               "empty unquoted entries are skipped, the '#' test is applied to the raw line. gix_path::realpath_opts tests every normal component for being a symlink before consuming it. Quoting fallbacks and git's depth limit are not decided.")
 
 
 def run(db, chk):
     order_and_dedup_rules(db, chk)
+    realpath_component_rule(db, chk)
     f = db.one(r"^gix_odb::alternate::resolve$")
     fl = Flow(f)
     joins = f.calls_to(r"std::path::Path::join$")
@@ -157,3 +158,31 @@ def order_and_dedup_rules(db, chk):
     for c in hashes:
         chk.ob("comment-test-on-raw-line", "alternate::parse::content starts_with('#')@%d" % c.line, not pfl.derives_from_call(c.args[0], r"ansi_c::undo$"),
                "the '#' comment test is applied to an unquoted value: a quoted entry #pool is a directory for git, here it is dropped as a comment", c.where(), key="alternates-comment|content")
+
+
+def realpath_component_rule(db, chk):
+    """alternates are identified (already consulted? cycle?) by gix_path::realpath_opts of their directory.  That walk is only the kernel's walk
+    if every normal component is looked at before anything is done with it: `link/..` is the parent of the link's TARGET, not of the link.  In
+    realpath_opts no path leads from the `Normal` arm of the component match back to the loop header without passing `is_symlink()` (must-pass),
+    and the loop has such an arm."""
+    f = db.one(r"^gix_path::realpath::function::realpath_opts$")
+    arms = []
+    for bi, si, pl, rv, ln, mc in f.assigns():
+        if rv[0] == "discr" and isinstance(rv[2], dict) and "Normal" in rv[2].values() and "ParentDir" in rv[2].values():
+            t = f.term(bi)
+            if t[0] == "switch":
+                d = {v: k for k, v in rv[2].items()}
+                tgt = next((x for vv, x in t[2] if str(vv) == d["Normal"]), t[3])
+                arms.append((bi, tgt, ln))
+    checks = f.calls_to(r"Path::is_symlink$|fs::symlink_metadata$|Path::symlink_metadata$|fs::read_link$|Path::read_link$")
+    chk.floor("realpath_opts: match on the component kind / symlink test", min(len(arms), len(checks)), 1)
+    for sw, tgt, ln in arms:
+        lps = [l for l in f.loops() if sw in l["body"]]
+        if not lps:
+            chk.anchor_lost("realpath_opts: loop around the component match")
+            continue
+        hdr = min(lps, key=lambda l: len(l["body"]))["header"]
+        r = f.reach_from(tgt, avoid={c.block for c in checks})
+        chk.ob("every-component-checked-for-symlink", "realpath_opts Normal arm@%d" % ln, hdr not in r and tgt != hdr,
+               "a normal path component can be consumed (or dropped together with a following `..`) without a symlink test: `link/..` is resolved textually, the directory's identity differs from the directory that is opened, and alternates are skipped or reported as cycles",
+               "%s:%d" % (f.file, ln), key="realpath-component|realpath_opts")
